@@ -65,7 +65,7 @@ CHECKS = {
              "with torn first/last writes, restarted on the same directory, the interrupted command is re-run and the workflow "
              "finished: the handshake must succeed with a state matching the files on disk and all searches must equal DB[w]. "
              "Also killed right after every open-for-write. Children have a TMPDIR on another file system, no CAP_DAC_OVERRIDE, own hash "
-             "seeds; a sample runs under -O. Quick: PiBas, 1 database (about 150 crash scenarios); thorough: 3 schemes x 3 databases.",
+             "seeds; a sample runs under -O. Quick: PiBas, 1 database (about 150 crash scenarios); thorough: 3 schemes (PiBas with 2 databases), about 2 hours.",
         note="No fsync / power-loss reordering model, no disk-full; client and server use separate scratch HOMEs."),
     "C01": dict(
         category="exploration", design="DESIGN.md §3 C01",
